@@ -390,3 +390,7 @@ fn construct_size_too_large_error(
     )
     .attach_context("size", size.to_string())
 }
+
+#[cfg(kani)]
+#[path = "/verif/harness/commands_config.rs"]
+pub(crate) mod verif_harness;
